@@ -21,7 +21,7 @@ TRUSTED = [
     "modelled, not verified: coq/Model/Fmt*.v restate write_expr (width unlimited), write_ident_part, display_ident_part, Literal Display, and a predictive model of the expression parser of parser/expr.rs; both are compared with the implementation on every run (token streams of the real lexer, ASTs of the real parser)",
     "the expression theorem is at token level: that the printed text of an expression lexes to the model's token list (spacing, range bind flags, atoms) is checked by the correspondence streams, not proved (the full lexer model belongs to C17)",
     "Rust's f64 Display prints the shortest round-tripping decimal in positional notation, and str::parse::<f64> is correctly rounded (floats are modelled as decimal mantissa/exponent pairs); char::escape_default; Unicode classes (alphabetic/alphanumeric) as Section variables",
-    "line breaking (SeparatedExprs, write_or_expand, width accounting), statement layout, types (incl. the type annotations of lambda parameters): outside the theorems, covered only by the direct differential oracle",
+    "line breaking (SeparatedExprs, write_or_expand, width accounting), types (type definitions, `let x <ty>`, the type annotations of lambda parameters), the `prql` header: outside the theorems, covered only by the direct differential oracle; the statement layer (Model/FmtStmt.v) is modelled at unlimited width with indentation counted in nat",
     "harness/src/c14.rs (prql_to_pl, pl_to_prql, json::from_pl, compile) and the JSON normaliser that drops `span` and `doc_comment`",
 ]
 
@@ -287,7 +287,7 @@ def run():
     if "error" in info:
         ck.coverage["translator_error"] = info["error"]
     ck.assumptions += [
-        "partial: line breaking (SeparatedExprs / write_or_expand), statement layout and type expressions are outside the theorems; they are covered only by the differential oracle (pl/fmt/compile on generated and pool sources).  Lambdas (without type annotations), aliases at operand positions and annotation expressions are inside the theorems since this round",
+        "partial: line breaking (SeparatedExprs / write_or_expand), type expressions and the `prql` header are outside the theorems; they are covered only by the differential oracle (pl/fmt/compile on generated and pool sources).  Lambdas (without type annotations), aliases at operand positions and annotation expressions are inside the theorems since this round",
         "the oracle compares ASTs with `span` and `doc_comment` removed (the property ignores positions, comments and line wraps)",
         "named arguments are a HashMap in the AST, printed in key order since commit 9396557: the model represents the map as its association list in that order",
         "compile equality is judged on sql.sqlite and sql.generic with format=false; a panic inside error rendering (F9) counts as an error",
